@@ -609,12 +609,15 @@ where
             #[cfg(feature = "multicast")]
             mac::Response::Multicast(mut response) => {
                 if response.is_transmit_request() {
-                    let (tx_config, _fcnt_up) =
+                    let (tx_config, fcnt_up) =
                         mac.multicast_setup_send::<G, N>(rng, radio_buffer)?;
                     radio
                         .tx(tx_config, radio_buffer.as_ref_for_read())
                         .await
                         .map_err(Error::Radio)?;
+                    // No receive windows follow this uplink: its frame counter is consumed here,
+                    // so that the next uplink never goes out under the same counter.
+                    mac.uplink_aborted(fcnt_up);
                     if let Some(rx_config) = rx_config {
                         radio.setup_rx(rx_config).await.map_err(Error::Radio)?;
                     }
